@@ -50,6 +50,16 @@ func genC16(enum bool) func(r *prng) *plan {
 				for j := 0; j < np; j++ {
 					o.N = append(o.N, int64(r.intn(osCount)))
 				}
+				if r.chance(12) {
+					// an item far larger than a receive window towards peers that accept the stream and never
+					// read: the sender stays blocked in its write, the transfer is in progress for seconds
+					o.N[1] = 3_000_000
+					for j := 0; j < np; j++ {
+						if r.chance(70) {
+							o.N[2+j] = int64(osAcceptStall)
+						}
+					}
+				}
 				p.Ops = append(p.Ops, o)
 			case 4, 5, 6, 7:
 				p.Ops = append(p.Ops, opSpec{K: "inoffer", N: []int64{int64(r.intn(np)), int64(1 + r.intn(3)), int64(r.intn(ibCount)), int64(r.u64() >> 1), int64(r.intn(5000))}})
@@ -148,12 +158,31 @@ func runC16(seed uint64, enum bool) {
 		w.net.faultsOn = true
 		w.net.faults = netFaults{MinLatency: 2 * time.Millisecond, Jitter: time.Duration(p.cfg("jitter_ms")) * time.Millisecond, DropPct: int(p.cfg("drop")), DupPct: 3}
 	}
+	stopped := false
 	// invariant at every quiescent step
 	check := func() {
 		ain := availPermits(V.utp.GetInboundPermit)
 		aout := availPermits(V.utp.GetOutboundPermit)
 		if ain > limit || aout > limit {
 			w.violate("C16", "over-release", "more slots available (in=%d out=%d) than the limit %d: a slot was returned twice", ain, aout, limit)
+		}
+		// bounded over time: a peer that accepted the stream of a 3 MB item and never reads keeps the node
+		// blocked in its write until the write times out (about 15 s); for all that time the transfer is in
+		// progress and must hold its slot. The stream is established, so the node's transfer is certainly
+		// running. Judged in fault-free runs only.
+		if !faults && !stopped {
+			now := w.now()
+			writing := 0
+			for _, t0 := range tr.bigStallAt {
+				if now > t0+300*time.Millisecond && now < t0+12*time.Second {
+					writing++
+				}
+			}
+			if writing > limit-aout {
+				w.violate("C16", "outbound-slot-not-held", "%d outbound transfers are certainly in progress (streams established, the peers do not read, 3 MB to write), but only %d of %d outbound slots are taken: a slot was given back before its transfer ended", writing, limit-aout, limit)
+			} else if writing > 0 {
+				w.res.Probes["outbound_blocked_write_holds_slot_steps"]++
+			}
 		}
 		if limit-ain > 0 {
 			w.res.Probes["inbound_slot_held_steps"]++
@@ -163,7 +192,6 @@ func runC16(seed uint64, enum bool) {
 		}
 	}
 	w.checks = append(w.checks, check)
-	stopped := false
 	dialsPendingAtStop := 0
 	for _, op := range p.Ops {
 		switch op.K {
@@ -173,6 +201,9 @@ func runC16(seed uint64, enum bool) {
 			}
 			key := append([]byte{0x01}, newPrng(uint64(op.n(0))).bytes(32)...)
 			val := valueFor(op.n(0), op.n(1))
+			if len(val) >= 3_000_000 {
+				tr.bigKeys[string(key)] = true
+			}
 			var names []string
 			for j := 0; j < np; j++ {
 				oc := int(op.n(2+j)) % osCount
@@ -180,6 +211,9 @@ func runC16(seed uint64, enum bool) {
 				names = append(names, osNames[oc])
 			}
 			n, err := vp.p.Gossip(nil, [][]byte{key}, [][]byte{val})
+			if len(val) >= 3_000_000 {
+				w.probe("gossip_3MB_to_stalling_peers")
+			}
 			w.op("gossip %d bytes -> %d targets err=%v; puppet outcomes %v", len(val), n, err, names)
 			w.abstract("gossip n=%d %v", n, names)
 			w.probe("gossip")
